@@ -59,7 +59,7 @@ def gen_case(rng, cid, klass=None):
         elif r < 9:
             ops.append("cb %d %s" % (c, rng.choice(BOUNDS)))
         elif r < 11 and nexp[v] < 30:
-            ops.append("%s %d %d %s" % ("E" if rng.chance(1, 6) else "e", c, v, w_for(c)))
+            ops.append("%s %d %d %s" % ("E" if (k != 5 and rng.chance(1, 6)) else "e", c, v, w_for(c)))
             nexp[v] += 1
         elif r == 11 and k in (3, 5):
             ops.append("vf %d" % v)
@@ -125,7 +125,7 @@ def run(ctx, mode):
     h = ctx.build_harness("harness.cpp")
     if not (drv and h):
         return
-    n = 150 if ctx.tier == "quick" else 4000
+    n = 150 if ctx.tier == "quick" else 600
     if ctx.broken:
         n *= 10
     corpus = [l.strip() for l in open(ctx.pdir + "/corpus.txt") if l.strip() and not l.startswith("#")]
@@ -151,6 +151,12 @@ def run(ctx, mode):
             ci += 1
             continue
         case = cases[ci]
+        if l.startswith("crash "):
+            # the library aborted outside solve() (an xbt_assert of the concurrency bookkeeping of expand/enable_var:
+            # C18's subject, not a statement about a solver's answer): counted, listed, not judged here
+            ctx.cov["aborts_outside_solve"] = ctx.cov.get("aborts_outside_solve", 0) + 1
+            ctx.notes.append("abort outside solve(): " + case[:400])
+            continue
         toks = l.split(" ")
         solver = toks[3] if toks[0] == "solve" else "?"
         ctx.cov["evaluations"] += 1
